@@ -61,6 +61,8 @@ fn classify(c: &Case, obs: &mut Obs) {
     });
     obs.class_if(c.min_weight_leaf >= 2.0, "min_weight_leaf_ge_2");
     obs.class_if(c.min_weight_split >= 5.0, "min_weight_split_ge_5");
+    obs.class_if(c.min_weight_split.fract() != 0.0, "fractional_min_weight_split");
+    obs.class_if(c.min_weight_leaf.fract() != 0.0 && c.min_weight_leaf != 0.5, "fractional_min_weight_leaf");
     obs.class_if(c.min_impurity_decrease >= 0.1, "min_impurity_decrease_large");
 }
 
@@ -171,8 +173,16 @@ fn case_strategy(fam: Family, tier: Tier) -> impl Strategy<Value = Case> {
     let hyper = (
         any::<bool>(),
         depth,
-        prop_oneof![3 => Just(1f32), 5 => Just(2f32), 2 => Just(5f32), 1 => Just(10f32)],
-        prop_oneof![3 => Just(0.5f32), 5 => Just(1f32), 2 => Just(2f32), 1 => Just(5f32)],
+        // integral and non-integral thresholds (the row count is compared with the value itself, not its floor)
+        prop_oneof![
+            3 => Just(1f32), 5 => Just(2f32), 2 => Just(5f32), 1 => Just(10f32),
+            2 => Just(1.5f32), 2 => Just(2.5f32), 2 => Just(3.5f32), 2 => Just(4.25f32),
+        ],
+        // dyadic sample weights keep the comparison with quarter-valued bounds exact
+        prop_oneof![
+            3 => Just(0.5f32), 5 => Just(1f32), 2 => Just(2f32), 1 => Just(5f32),
+            2 => Just(0.75f32), 2 => Just(1.5f32), 1 => Just(2.25f32),
+        ],
         prop_oneof![5 => Just(1e-5f64), 2 => Just(0.01f64), 1 => Just(0.2f64)],
     );
     let shape = (
@@ -276,11 +286,11 @@ fn enumerate(col: Col, vals: u8, labs: u8, nmax: usize, depths: &[Option<u8>], b
             // rows are exchangeable for every obligation except presorting order: keep all orders
             let h = counter;
             counter += 1;
-            let mws = [1f32, 2.0, 2.0, 5.0][h % 4];
-            let mwl = [1f32, 0.5, 2.0][(h / 4) % 3];
-            let mid = [1e-5f64, 0.01, 0.2, 1e-5][(h / 12) % 4];
-            let weights = if (h / 48) % 2 == 1 {
-                Some((0..n).map(|i| ((h / 96 + i * 3) % 4) as u8).collect())
+            let mws = [1f32, 2.0, 2.5, 5.0, 1.5, 3.5, 2.0, 4.25][h % 8];
+            let mwl = [1f32, 0.5, 2.0, 0.75, 1.5, 1.0, 2.25][(h / 8) % 7];
+            let mid = [1e-5f64, 0.01, 0.2, 1e-5][(h / 56) % 4];
+            let weights = if (h / 5) % 2 == 1 {
+                Some((0..n).map(|i| ((h / 10 + i * 3) % 4) as u8).collect())
             } else {
                 None
             };
@@ -289,7 +299,7 @@ fn enumerate(col: Col, vals: u8, labs: u8, nmax: usize, depths: &[Option<u8>], b
                 cols: vec![col],
                 codes,
                 y,
-                label: [LabelKind::Usize, LabelKind::Str, LabelKind::Bool][if labs == 2 { h % 3 } else { h % 2 }],
+                label: [LabelKind::Usize, LabelKind::Str, LabelKind::Bool][if labs == 2 { (h / 11) % 3 } else { (h / 11) % 2 }],
                 weights,
                 entropy: (h / 3) % 2 == 1,
                 max_depth: depths[h % depths.len()],
@@ -309,7 +319,7 @@ pub fn property() -> Property {
         rule: "case = labelled dataset in integer codes (n 1..=60, thorough <=300; p 1..=4; columns: small grids with step 1/0.5/0.25, constant, \
                fine grid around linfa's 1e-5 equal-value guard, consecutive floats f32>=128 / f64>=2^37 whose midpoint rounds onto a sample), \
                2..=6 classes as usize/bool/String, labels random or a noisy function of the features, optional dyadic weights, both criteria, \
-               max_depth None/0/1/2/3/5(/12), min_weight_split 1/2/5/10, min_weight_leaf 0.5/1/2/5, min_impurity_decrease 1e-5/0.01/0.2, \
+               max_depth None/0/1/2/3/5(/12), min_weight_split 1/1.5/2/2.5/3.5/4.25/5/10, min_weight_leaf 0.5/0.75/1/1.5/2/2.25/5, min_impurity_decrease 1e-5/0.01/0.2, \
                plus query rows on half steps; exhaustive one-feature strata (3 grid values x 3 labels, n<=5 quick / 6 thorough; 4 consecutive floats at 200 x 2 labels, n<=5/6; 6 consecutive floats across the 256 binade x 2 labels, n<=4/5; hyper-parameters cycle through a fixed table). \
                Non-trivial = fitted tree has >= 2 split nodes, or a reached leaf has a weighted tie for the mode, or the case contains a \
                consecutive-float column above the guard; distinct = distinct canonical JSON of the case",
@@ -327,7 +337,7 @@ pub fn property() -> Property {
         subs: vec![
             prop_sub("grid", 400000, 3000000, |t: Tier| case_strategy(Family::Grid, t), check)
                 .chunks(32)
-                .require(&["splits_2plus", "leaf_weighted_tie", "duplicates_conflicting_labels", "max_depth_none", "max_depth_0"]),
+                .require(&["splits_2plus", "leaf_weighted_tie", "duplicates_conflicting_labels", "max_depth_none", "max_depth_0", "fractional_min_weight_split", "impure_leaf_with_floor_min_weight_split_rows"]),
             prop_sub("adjacent_finite", 150000, 1000000, |t: Tier| case_strategy(Family::AdjFinite, t), check)
                 .chunks(16)
                 .require(&["adjacent_floats", "threshold_equals_training_value"]),
